@@ -353,6 +353,10 @@ def run(ck, tier):
     ck.guard(r7_synchronous, ck, cx)
     ck.guard(r8_datagram_destination, ck, cx)
     ck.guard(r8_one_datagram_per_framer_call, ck, cx)
+    ck.rule('R10', 'the ids copied into the response are the ids on the wire: MBAP header parsed with the format and codes it is built with (shared with C03 R2/R7)')
+    from ..share import import_findings
+    import_findings(ck, 'C03', 'R10', ('R2', 'R7'), 'the response then carries another transaction / unit id than the request, or cannot be built at all',
+                    detail_prefixes=('header-binding', 'signedness-mismatch'))
     ck.rule('R9', 'every complete frame for a hosted unit reaches the callback: framer state carried between calls stays coherent (shared with C06 R6/R7)')
     from .c06 import r6_header_cache_coherence, r7_add_appends
     from ..framermodel import framer_paths
